@@ -62,6 +62,10 @@ AcceptableScaling(rec) ==
     /\ rec.outcome = "value"
     /\ rec.big_ms * rec.small_len <= 3 * (rec.small_ms + 100) * rec.big_len
 
+(* ... and so does the copying done on the way: bytes produced by slicing the input (measured with a counting bytes
+   type; a linear decoder copies each byte a few times, at most once per nesting level) *)
+AcceptableCopy(rec) == rec.outcome = "value" /\ rec.copied <= 16 * rec.len + 4096
+
 (* "an exception costs the peer only its own connection": decoding is a function of the bytes alone.  A
    recorded pair [before, after] = what a valid message decoded to before and after a run of hostile inputs
    (on other connections of the same process) is acceptable iff nothing changed. *)
